@@ -22,10 +22,11 @@ type Ctx struct {
 	k2    *Prog
 	k2err error
 	// normalised view (see inline.go): same fields for the tree with non-inventory helpers inlined
-	norm     *Ctx
-	normDone bool
-	isNorm   bool
-	normNote string
+	norm      *Ctx
+	normDone  bool
+	isNorm    bool
+	normNote  string
+	importing bool // this context runs a sibling's rules for import: nested imports are skipped
 }
 
 // K1 is the linux/amd64 configuration.
@@ -311,4 +312,23 @@ func run(ctx *Ctx, f propFn, evidence string) (code int) {
 		}
 	}
 	return ctx.R.Finish(ctx.Verif, evidence)
+}
+
+// importSibling runs a sibling property's rule set on the same program and imports the obligations of the selected rules
+// under a rule id of the importing property: properties that rest on one mechanism share the rules that guard it.
+func importSibling(c *Ctx, sibling string, asRule string, keep func(rule string) bool) {
+	f, ok := props[sibling]
+	if !ok {
+		c.R.Und(asRule, "sibling rules "+sibling, "", "sibling property not registered")
+		return
+	}
+	sub := NewReport(sibling, c.Tier)
+	sub.SetConfig("linux/amd64")
+	sc := &Ctx{Repo: c.Repo, Verif: c.Verif, Tier: c.Tier, R: sub, k1: c.k1, k2: c.k2, k2err: c.k2err, isNorm: c.isNorm, importing: true}
+	f(sc)
+	if c.k2 == nil && sc.k2 != nil {
+		c.k2, c.k2err = sc.k2, sc.k2err
+	}
+	c.R.verifDir = c.Verif
+	c.R.Import(sub, asRule, keep)
 }
